@@ -183,8 +183,11 @@ def check_incr(o):
     X = np.array(o["X"], dtype=float)
     centre = c["centre"]
     comp = c["comp"]
-    kinds = ["PCAVectorModel"] + (["PCAModel"] if X.shape[1] % 2 == 0 else [])
+    # "(view narrowed)": the number of ACTIVE components is lowered before every increment - a view on the model; the
+    # increments must still be absorbed by the whole model
+    kinds = ["PCAVectorModel", "PCAVectorModel (view narrowed)"] + (["PCAModel"] if X.shape[1] % 2 == 0 else [])
     for tag in kinds:
+        narrowed = tag.endswith("(view narrowed)")
         wrap = (lambda A: [PointCloud(x.reshape(-1, 2)) for x in A]) if tag == "PCAModel" else (lambda A: A.copy())
         ctor = PCAModel if tag == "PCAModel" else PCAVectorModel
         a = comp[0]
@@ -194,6 +197,8 @@ def check_incr(o):
             kind = None
             if k > 0:
                 zero_mean_before = centre and bool(np.all(m._mean == 0))
+                if narrowed and m.n_components > 1:
+                    m.n_active_components = 1
                 m.increment(wrap(X[a:a + comp[k]]))
                 a += comp[k]
                 if zero_mean_before:
